@@ -126,7 +126,7 @@ let parse_cevent (op : string) : S.cevent option =
 let run_case cfg ops =
   let (cf, fx) = parse_cfg cfg in
   (* the RTSP shell follows the repaired tree unless the pinned one (or shell=old) is asked for *)
-  let f32 = not (fx == G.pinned_tree) && not (String.length cfg >= 9 &&
+  let fsh = not (fx == G.pinned_tree) && not (String.length cfg >= 9 &&
               (let rec has i = i + 9 <= String.length cfg && (String.sub cfg i 9 = "shell=old" || has (i + 1)) in has 0)) in
   let st = ref S.init_cstate in
   let outs = Stdlib.List.map (fun op ->
@@ -145,7 +145,7 @@ let run_case cfg ops =
           | S.CE e -> e
           | S.CAnnounce (s, _, n, d) -> G.ERtspPub (s, n, d)
           | S.CDescribe (s, _, n, d) -> G.ERtspSub (s, n, d) in
-        let ((st1, r), ns) = S.cstep f32 fx cf !st ce in
+        let ((st1, r), ns) = S.cstep fsh fx cf !st ce in
         st := st1;
         let ev = if ns = [] then "-" else String.concat "+" (Stdlib.List.map show_notif ns) in
         show_result shown r ^ "/" ^ show_view st1.S.cs_base ^ "/" ^ ev)
